@@ -321,6 +321,47 @@ def run(ck):
                     break
             finally:
                 shutil.rmtree(d, ignore_errors=True)
+    # ---- the symbol files are written where the command line says (relative to the directory the command runs in), also
+    # when an -I directory holds a file of the same name: that one is not touched
+    for arch in asmk.ARCHES:
+        for opt, name in [("-g", "sym.json"), ("--debug", "sym.json")] + ([("--gSYM", "x.sym")] if arch == "sm83" else []):
+            d = tempfile.mkdtemp(prefix="az65_c15_")
+            try:
+                os.makedirs(os.path.join(d, "lib"))
+                open(os.path.join(d, "lib", "lib.inc"), "w").write(LIB)
+                open(os.path.join(d, "lib", name), "w").write("DECOY")
+                open(os.path.join(d, "main.asm"), "w").write('@org $c000\n@meta "ID" "HRAM"\nhv:\n@endmeta\n@meta "ID" "RAM"\nrv:\n@endmeta\n' + PROGS["ok_inc"][0])
+                argv = [arch, "main.asm", "-I", "lib", opt, name]
+                p = subprocess.run([az] + argv, cwd=d, stdout=subprocess.PIPE, stderr=subprocess.PIPE, timeout=60)
+                ck.evaluations += 1
+                ck.nontriv("decoy:" + " ".join(argv))
+                here = open(os.path.join(d, name)).read() if os.path.exists(os.path.join(d, name)) else None
+                decoy = open(os.path.join(d, "lib", name)).read()
+                if p.returncode != 0 or here is None or "hv" not in here or decoy != "DECOY":
+                    ck.violation("`az65 %s` with a file lib/%s already there: exit %s, ./%s %s, lib/%s %s" % (
+                        " ".join(argv), name, p.returncode, name, "missing" if here is None else "holds %r" % here[:40], name,
+                        "untouched" if decoy == "DECOY" else "overwritten with %r" % decoy[:40]),
+                        {"mode": "cli", "argv": ["az65"] + argv, "expected": "exit 0, ./%s written, lib/%s untouched" % (name, name)})
+            finally:
+                shutil.rmtree(d, ignore_errors=True)
+    # ---- a symbol file that cannot take the bytes (a full device): the run fails with a message
+    if os.path.exists("/dev/full"):
+        for arch in asmk.ARCHES:
+            for opt in ["-g", "--debug"] + (["--gSYM"] if arch == "sm83" else []):
+                d = tempfile.mkdtemp(prefix="az65_c15_")
+                try:
+                    open(os.path.join(d, "main.asm"), "w").write(PROGS["ok"][0])
+                    argv = [arch, "main.asm", opt, "/dev/full"]
+                    p = subprocess.run([az] + argv, cwd=d, stdout=subprocess.PIPE, stderr=subprocess.PIPE, timeout=60)
+                    ck.evaluations += 1
+                    ck.nontriv("fullexp:" + " ".join(argv))
+                    ck.count("full-device-export:rc=%s" % p.returncode)
+                    if p.returncode == 0 or not p.stderr.strip() or b"panicked" in p.stderr:
+                        ck.violation("`az65 %s` (the symbol file is a full device): exit status %s, stderr %r -- a requested export failed, the run must fail with a message" % (
+                            " ".join(argv), p.returncode, p.stderr.decode("utf8", "replace")[:120]),
+                            {"mode": "cli", "argv": ["az65"] + argv, "files": {"main.asm": PROGS["ok"][0]}, "expected": "non-zero exit and a message"})
+                finally:
+                    shutil.rmtree(d, ignore_errors=True)
     # ---- a destination that cannot take the bytes (a full device): the run fails, with a message, whatever the size
     # of the image and wherever it goes (the kernel's /dev/full accepts the open and fails every write)
     if os.path.exists("/dev/full"):
